@@ -77,6 +77,16 @@ def resolve(d, dp):
         v = d["m"] * 0.5 / (10.0 ** dp)
         if d.get("neg"):
             v = -v
+    elif t == "nptie":
+        # a float16/float32 next to a rounding tie of the configured precision
+        dt = np.dtype(d["dt"])
+        with np.errstate(over="ignore"):
+            x = dt.type((d["k"] + 0.5) / (10.0 ** dp))
+            for _ in range(abs(d["off"])):
+                x = np.nextafter(x, dt.type(np.inf if d["off"] > 0 else -np.inf))
+        if d.get("neg") and not d.get("nonneg"):
+            x = -x
+        return x
     elif t == "np":
         dt = np.dtype(d["dt"])
         if dt.kind == "f":
@@ -107,7 +117,7 @@ def value_classes(d, v, dp):
         return cl
     if not math.isfinite(fv):
         return ["nonfinite"]
-    if d["t"] == "tie":
+    if d["t"] in ("tie", "nptie"):
         cl.append("tie")
     U = 0.5 / 10.0 ** dp
     if 0 < abs(fv) < U:
@@ -163,7 +173,11 @@ def value_strategy(nonneg=False, allow_np=True, small=False, np_types=None):
                                   st.integers(-300, 300).map(float),
                                   st.just(float("nan")), st.just(float("inf")))
                         ).map(lambda t: {"t": "np", "dt": t[0], "v": t[1]})
-        opts += [npv, npv]
+        nptie = st.tuples(st.sampled_from([t for t in (np_types or NP_TYPES) if t.startswith("float")]),
+                          st.integers(0, 2000 if not small else 200), st.integers(-2, 2),
+                          st.booleans()).map(
+            lambda t: {"t": "nptie", "dt": t[0], "k": t[1], "off": t[2], "neg": t[3]})
+        opts += [npv, npv, nptie]
     s = st.one_of(*opts)
     if nonneg:
         s = s.map(lambda d: dict(d, nonneg=True, neg=False))
@@ -236,8 +250,11 @@ def call_strategy():
     text = st.sampled_from([None, "hello", "feed move", "ümlaut ✓", "a b  c",
                             "retract\nM112", "pocket (rough) M30", "x\r\nG0 Z-5"])
     axes = st.fixed_dictionaries({}, optional={"x": anyv, "y": anyv, "z": anyv})
+    # free-form words are plain keyword arguments (not type-checked): every
+    # numpy scalar type can arrive there
+    anyx = value_strategy()
     extra = st.fixed_dictionaries({}, optional={
-        "F": pos, "S": pos, "E": anyv, "p": anyv, "j": anyv})
+        "F": pos, "S": pos, "E": anyx, "p": anyx, "j": anyv})
 
     def motion(op):
         return st.tuples(axes, extra, text, st.booleans(),
